@@ -1424,7 +1424,12 @@ class ModelsOps:
             v = args[0]
             fi = self.dunder_of(v, "__hash__")
             if fi is not None:
-                return I.call_function(fi, [v], {}, node)
+                h = I.call_function(fi, [v], {}, node)
+                if not isinstance(h, (HashV, Num, OpaqueV)):
+                    # __hash__ method should return an integer
+                    self.flag("bad-hash", node, f"__hash__ returns {h!r}")
+                    I.raise_("TypeError", node)
+                return h
             return HashV(v)
         if name in ("format",):
             if args and getattr(self, "text_templates", False):
